@@ -547,8 +547,7 @@ func ruleNFunCall(c *engine.Context) *report.Rule {
 						}
 					}
 				}
-				cl, ok := src.(*ssa.Call)
-				return ok && cl.Call.StaticCallee() != nil && findPoolAccess(c).acquire[cl.Call.StaticCallee()]
+				return isPoolAcquired(c, src)
 			}
 			checkEdge := func(v ssa.Value, pred *ssa.BasicBlock) {
 				if priv(v) {
@@ -604,8 +603,17 @@ func ruleNFunCall(c *engine.Context) *report.Rule {
 		fwd := false
 		for _, ref := range *call.Referrers() {
 			if ex, isEx := ref.(*ssa.Extract); isEx && ex.Index == 0 {
-				for _, r2 := range *ex.Referrers() {
-					if cl, isCall := r2.(*ssa.Call); isCall && cl.Call.StaticCallee() != nil {
+				for _, u := range usesThroughCells(ex) {
+					cl, isCall := u.user.(*ssa.Call)
+					if !isCall {
+						continue
+					}
+					if cl.Call.StaticCallee() != nil {
+						fwd = true
+					}
+					// handed to the next step directly (the forward-or-emit helper may be expanded here)
+					if cl.Call.IsInvoke() && cl.Call.Method.Name() == p.Roles.RetrieveName &&
+						types.Identical(cl.Call.Value.Type(), p.Roles.NodeIface) && len(cl.Call.Args) > 1 && cl.Call.Args[1] == u.as {
 						fwd = true
 					}
 				}
@@ -1278,7 +1286,7 @@ func isIntT(t types.Type) bool {
 func ruleNForward(c *engine.Context) *report.Rule {
 	r := report.NewRule("N-FORWARD", "every step hands the next step the same root, the same sink and the child it selected", 12)
 	p := c.P
-	pa := findPoolAccess(c)
+	_ = findPoolAccess(c)
 	rootParam := func(fn *ssa.Function) *ssa.Parameter {
 		// first empty-interface parameter after the receiver
 		for i, prm := range fn.Params {
@@ -1336,7 +1344,7 @@ func ruleNForward(c *engine.Context) *report.Rule {
 						ok2 = false
 						why = append(why, "evaluation does not start with root = current = the source argument")
 					}
-				} else if aRoot != nil && (root == nil || aRoot != ssa.Value(root)) {
+				} else if aRoot != nil && (root == nil || !sameParamVar(fn, aRoot, root)) {
 					ok2 = false
 					why = append(why, "the root argument is not the caller's own root")
 				}
@@ -1353,10 +1361,10 @@ func ruleNForward(c *engine.Context) *report.Rule {
 							}
 						}
 					}
-					if cl, isCall := sv.(*ssa.Call); isCall && cl.Call.StaticCallee() != nil && pa.acquire[cl.Call.StaticCallee()] {
+					if isPoolAcquired(c, sv) {
 						privateSink = true
 					}
-					if !privateSink && fn != p.EvalClosure && (sink == nil || aSink != ssa.Value(sink)) {
+					if !privateSink && fn != p.EvalClosure && (sink == nil || !sameParamVar(fn, aSink, sink)) {
 						ok2 = false
 						why = append(why, "results are collected into a sink that is neither the caller's own nor a private pooled one")
 					}
@@ -1393,6 +1401,11 @@ func ruleNForward(c *engine.Context) *report.Rule {
 			for _, ins := range b.Instrs {
 				call, ok := ins.(*ssa.Call)
 				if !ok || !isRetrieveInvoke(call) {
+					continue
+				}
+				// only steps into the emitter's own sink forward "the" child; a step into a private
+				// sink (a function node evaluating its parameter path) is judged by N-FUNCALL
+				if sk := sinkParam(p, fn); sk != nil && !sameParamVar(fn, call.Call.Args[2], sk) {
 					continue
 				}
 				r.Instances++
@@ -1599,7 +1612,7 @@ func findRetrieveEdges(c *engine.Context) []*retrieveEdge {
 					continue
 				}
 				seen[key] = true
-				out = append(out, &retrieveEdge{T: T, field: f, sameSink: sink != nil && aSink == ssa.Value(sink), fn: fn})
+				out = append(out, &retrieveEdge{T: T, field: f, sameSink: sink != nil && sameParamVar(fn, aSink, sink), fn: fn})
 			}
 		}
 	}
@@ -1627,8 +1640,10 @@ func ruleNAccFlag(c *engine.Context) *report.Rule {
 	flagField := -1
 	for _, es := range findEmitSites(c) {
 		if es.guard != nil {
-			if base, f, ok := boolFieldLoad(es.guard.Cond); ok && len(es.fn.Params) > 0 && base == ssa.Value(es.fn.Params[0]) {
-				flagField = f
+			if base, f, ok := boolFieldLoad(es.guard.Cond); ok {
+				if pt, isP := base.Type().Underlying().(*types.Pointer); isP && types.Identical(pt.Elem(), p.Roles.BasicNode) {
+					flagField = f
+				}
 			}
 		}
 	}
@@ -1934,4 +1949,82 @@ func storedInLoopOutsideAlloc(al *ssa.Alloc) bool {
 func isEmitHelper(c *engine.Context, fn *ssa.Function) bool {
 	_, ok := emitHelpers(c)[fn]
 	return ok
+}
+
+// isPoolAcquired: v is a pooled object fresh from its pool: the result of an acquire accessor, or
+// of (*sync.Pool).Get (possibly through the type assertion that gives it its type).
+func isPoolAcquired(c *engine.Context, v ssa.Value) bool {
+	for i := 0; i < 4; i++ {
+		switch x := v.(type) {
+		case *ssa.TypeAssert:
+			v = x.X
+			continue
+		case *ssa.Extract:
+			v = x.Tuple
+			continue
+		case *ssa.Call:
+			sc := x.Call.StaticCallee()
+			if sc == nil {
+				return false
+			}
+			return findPoolAccess(c).acquire[sc] || sc.String() == "(*sync.Pool).Get"
+		}
+		return false
+	}
+	return false
+}
+
+type cellUse struct {
+	user ssa.Instruction
+	as   ssa.Value // the value the user sees (v itself, or a load of the cell holding it)
+}
+
+// usesThroughCells: the instructions that use v, directly or as a load of a local cell (a
+// captured variable) into which v is the only value stored.
+func usesThroughCells(v ssa.Value) []cellUse {
+	var out []cellUse
+	if v.Referrers() == nil {
+		return nil
+	}
+	for _, ref := range *v.Referrers() {
+		out = append(out, cellUse{ref, v})
+		st, ok := ref.(*ssa.Store)
+		if !ok || st.Val != v {
+			continue
+		}
+		al, ok := st.Addr.(*ssa.Alloc)
+		if !ok {
+			continue
+		}
+		only := true
+		for _, r2 := range *al.Referrers() {
+			if s2, isSt := r2.(*ssa.Store); isSt && s2.Addr == ssa.Value(al) && s2 != st {
+				only = false
+			}
+		}
+		if !only {
+			continue
+		}
+		for _, r2 := range *al.Referrers() {
+			if ld, isLd := r2.(*ssa.UnOp); isLd && ld.Op == token.MUL && ld.Referrers() != nil {
+				for _, r3 := range *ld.Referrers() {
+					out = append(out, cellUse{r3, ld})
+				}
+			}
+		}
+	}
+	return out
+}
+
+// sameParamVar: v is the parameter, or a load of the cell the parameter was spilled into (a
+// parameter captured by a closure) when nothing else is stored into that cell.
+func sameParamVar(fn *ssa.Function, v ssa.Value, prm *ssa.Parameter) bool {
+	if v == ssa.Value(prm) {
+		return true
+	}
+	cell := cellOfParam(fn, prm)
+	if cell == nil || storesTo(cell) != 1 {
+		return false
+	}
+	return loadOfCell(v) == cell
 }
